@@ -384,4 +384,137 @@ theorem violation_accepted_D30 :
     validJN (fun _ _ => true) 4 [] (.object [("k".toList, .const (.str "zz".toList))] ["k".toList] .absent)
       (.obj []) = false := by decide +kernel
 
+/-! ## Part 3: `required` naming an INHERITED member (multiple inheritance)
+
+`required` next to `allOf` may name a member that the class does not declare itself: the member of a `$ref` base, or
+of a base of a base, any number of levels up, through any of several bases. `_parse_object_common_part` leaves a
+placeholder field, `Parser.__override_required_field` looks the name up with `_find_field` — breadth first over the
+base classes — and re-declares the member as required (Dcg/Model/Inherit.lean: `findField`, `overrideFields`).
+The statements quantify over EVERY table of classes and base-class edges (any number of bases per class, any depth,
+diamonds); `Acyclic` — a rank decreasing along every edge — is what Python demands of a class hierarchy anyway. -/
+
+open Dcg.Model.Inherit Dcg.Proofs.SemInherit
+
+/-- FULL STRENGTH, over an arbitrary acyclic base-class table: a placeholder `p` of class `c` whose name is
+declared by SOME class reachable from the bases of `c` — a direct base or an ancestor of ANY base, at any depth —
+is replaced by a copy of a declaration `o` of that name, found in a reachable class, with `required = True`.
+The fuel `queueCost T R (bases T c)` (number of visits of the loop) always suffices. -/
+theorem inherited_required_handling (T : Table) (rank : Name → Nat) (R : Nat) (hT : Acyclic T rank R)
+    (c : Name) (fs : List Fld) (p : Fld) (hp : p ∈ fs) (hph : p.placeholder = true)
+    (g : Nat) (hg : queueCost T R (bases T c) ≤ g)
+    (d : Name) (f0 : Fld) (hr : Reach T (bases T c) d) (hd : declares T d p.name = some f0) :
+    ∃ d' o, Reach T (bases T c) d' ∧ declares T d' p.name = some o ∧
+      { o with required := true } ∈ overrideFields T g c fs ∧
+      ({ o with required := true } : Fld).name = p.name ∧ ({ o with required := true } : Fld).required = true := by
+  obtain ⟨d', o, hfound, hr', hd'⟩ := findField_finds T rank R hT p.name g (bases T c) hg d f0 hr hd
+  exact ⟨d', o, hr', hd', overrideFields_replaces T g c fs p hp hph d' o hfound, (declares_spec hd').1, rfl⟩
+
+/-- …read as the property states it: after the pass the class has a REQUIRED field of that name -/
+theorem inherited_member_is_required (T : Table) (rank : Name → Nat) (R : Nat) (hT : Acyclic T rank R)
+    (c : Name) (fs : List Fld) (p : Fld) (hp : p ∈ fs) (hph : p.placeholder = true)
+    (g : Nat) (hg : queueCost T R (bases T c) ≤ g)
+    (d : Name) (f0 : Fld) (hr : Reach T (bases T c) d) (hd : declares T d p.name = some f0) :
+    (overrideFields T g c fs).any (fun x => x.name == p.name && x.required) = true := by
+  obtain ⟨_, o, _, _, hmem, hn, hreq⟩ := inherited_required_handling T rank R hT c fs p hp hph g hg d f0 hr hd
+  refine List.any_eq_true.mpr ⟨_, hmem, ?_⟩
+  have hn' : o.name = p.name := hn
+  simp [hn']
+
+/-- NOTHING ELSE HAPPENS: every field after the pass is an untouched own field, or the required copy of the
+declaration the lookup found for one of the placeholders — in a class reachable from the bases (soundness of the
+lookup: it never invents a member, never takes one from an unrelated class). -/
+theorem override_result_origin (T : Table) (g : Nat) (c : Name) (fs : List Fld) (x : Fld)
+    (hx : x ∈ overrideFields T g c fs) :
+    (x ∈ fs ∧ x.placeholder = false) ∨
+    ∃ p ∈ fs, p.placeholder = true ∧ ∃ d o, Reach T (bases T c) d ∧ declares T d p.name = some o ∧
+      x = { o with required := true } := by
+  rcases overrideFields_origin T g c fs x hx with h | ⟨p, hp, hph, d, o, hfound, rfl⟩
+  · exact Or.inl h
+  · obtain ⟨hr, hd⟩ := findField_sound T p.name g _ d o hfound
+    exact Or.inr ⟨p, hp, hph, d, o, hr, hd, rfl⟩
+
+/-- own fields are not touched -/
+theorem override_keeps_own_fields (T : Table) (g : Nat) (c : Name) (fs : List Fld) (f : Fld) (hf : f ∈ fs)
+    (hp : f.placeholder = false) : f ∈ overrideFields T g c fs :=
+  overrideFields_keeps T g c fs f hf hp
+
+/-- the lookup returns `None` only when NO class reachable from the bases declares the name (so a `required`
+is dropped only when it names a member that exists nowhere in the hierarchy) -/
+theorem lookup_none_only_if_undeclared (T : Table) (n : Name) (g : Nat) (q : List Name)
+    (h : findField T n g q = .absent) (d : Name) (hr : Reach T q d) : declares T d n = none :=
+  findField_complete T n g q h d hr
+
+/-- the lattice of the non-vacuity example and of the witness: two roots, a class on each, a class with both as bases
+
+    N {label}     I {id}
+      ^             ^
+    G {tags}      V {wheels}
+        \         /
+         C  (placeholders for `id`, `label`) -/
+def demoTable : Table :=
+  [("N".toList, ⟨[⟨"label".toList, false, false, 1⟩], []⟩),
+   ("I".toList, ⟨[⟨"id".toList, false, false, 2⟩], []⟩),
+   ("G".toList, ⟨[⟨"tags".toList, false, false, 3⟩], ["N".toList]⟩),
+   ("V".toList, ⟨[⟨"wheels".toList, false, false, 4⟩], ["I".toList]⟩),
+   ("C".toList, ⟨[⟨"id".toList, true, true, 0⟩, ⟨"label".toList, true, true, 0⟩], ["G".toList, "V".toList]⟩)]
+
+def demoRank (n : Name) : Nat :=
+  if n = "C".toList then 2 else if n = "G".toList ∨ n = "V".toList then 1 else 0
+
+/-- non-vacuity: the lattice is acyclic; `id` — declared two levels up, above the SECOND base — and `label` —
+above the first — are both re-declared as required, as copies (tags 2 and 1) of the ancestors' declarations -/
+example : (∀ c ∈ demoTable.map (·.1), ∀ b ∈ bases demoTable c, demoRank b < demoRank c) ∧
+    queueCost demoTable 2 (bases demoTable "C".toList) = 4 ∧
+    overrideFields demoTable 4 "C".toList
+      [⟨"id".toList, true, true, 0⟩, ⟨"label".toList, true, true, 0⟩] =
+      [⟨"id".toList, true, false, 2⟩, ⟨"label".toList, true, false, 1⟩] := by decide +kernel
+
+/-- WITNESS that EVERY base must be followed: the variant of the lookup that continues only with the bases of the
+first class that has any (`findFieldFirstBranch`) does not find `id` — `G` comes first, its ancestors do not declare
+`id`, the ancestors of `V` are never visited — so the statement above is false for it: the placeholder is dropped
+and the `required` silently lost. -/
+theorem first_branch_only_loses_inherited_required :
+    findField demoTable "id".toList 4 (bases demoTable "C".toList) =
+      .found "I".toList ⟨"id".toList, false, false, 2⟩ ∧
+    (∀ g, findFieldFirstBranch demoTable "id".toList (g + 3) (bases demoTable "C".toList) = .absent) ∧
+    Reach demoTable (bases demoTable "C".toList) "I".toList ∧
+    declares demoTable "I".toList "id".toList = some ⟨"id".toList, false, false, 2⟩ := by
+  refine ⟨by decide +kernel, ?_, ?_, by decide +kernel⟩
+  · intro g
+    have e1 : ∀ g, findFieldFirstBranch demoTable "id".toList (g + 1) ["G".toList, "V".toList] =
+        findFieldFirstBranch demoTable "id".toList g ["N".toList] := by
+      intro g
+      rw [findFieldFirstBranch]
+      have a : List.findSome? (fun c => (declares demoTable c "id".toList).map (fun f => (c, f)))
+          ["G".toList, "V".toList] = none := by decide +kernel
+      have b : List.find? (fun c => !(bases demoTable c).isEmpty) ["G".toList, "V".toList] = some "G".toList := by
+        decide +kernel
+      have c : bases demoTable "G".toList = ["N".toList] := by decide +kernel
+      rw [a, b]
+      simp only [c]
+    have e2 : ∀ g, findFieldFirstBranch demoTable "id".toList (g + 1) ["N".toList] = .absent := by
+      intro g
+      rw [findFieldFirstBranch]
+      have a : List.findSome? (fun c => (declares demoTable c "id".toList).map (fun f => (c, f)))
+          ["N".toList] = none := by decide +kernel
+      have b : List.find? (fun c => !(bases demoTable c).isEmpty) ["N".toList] = none := by decide +kernel
+      rw [a, b]
+    have h1 : bases demoTable "C".toList = ["G".toList, "V".toList] := by decide +kernel
+    rw [h1, show g + 3 = (g + 1 + 1) + 1 from rfl, e1, e2]
+  · have hV : "V".toList ∈ bases demoTable "C".toList := by decide +kernel
+    have hI : "I".toList ∈ bases demoTable "V".toList := by decide +kernel
+    exact Reach.step (Reach.start hV) hI
+
+open Dcg.Sem Dcg.Sem.Pyd Dcg.Model.Translate in
+/-- REFUTATION (known finding C04-nullable-map-value-lost): a map object behind a nullable type list —
+`{"type": ["object", "null"], "additionalProperties": {"type": "integer"}}` — is generated as
+`Optional[Dict[str, Any]]`: the value schema does not reach the IR (`get_data_type` maps the entry `object` of the
+type list to `Dict[str, Any]`), so `{"k": "zq"}` is accepted. (`Schema.ndict` is outside `oneOfFree`, the region of
+`violation_rejected_partial`, for this reason.) -/
+theorem violation_accepted_nullable_map :
+    acceptsTy .v2 (fun _ _ => true) 6 [] (tr .v2 {} .plain (.ndict (.scalar .integer false {})))
+      (.obj [("k".toList, .str "zq".toList)]) = .accept ∧
+    validJN (fun _ _ => true) 6 [] (.ndict (.scalar .integer false {})) (.obj [("k".toList, .str "zq".toList)]) = false ∧
+    (Schema.ndict (.scalar .integer false {})).oneOfFree = false := by decide +kernel
+
 end Dcg.Props.C04
